@@ -11,7 +11,7 @@ CHECKS = {
  "C02": ("exploration", "deterministic simulation: seeded schedule search over real threads at libc-call granularity; history oracle (exactly-once, whole, real-time order)",
          "Runs 1..8 real sender threads/sim-processes against every receiver style under a seeded scheduler that pre-empts at every packet transmission; the recorded history is checked for exactly-once, whole-message and happens-before order. Sampling of schedules, not proof.", "5/C02"),
  "C03": ("exploration", "deterministic simulation: seeded histories + schedules; interval (invoke/return) lineage model of sender handles as oracle",
-         "Seeded histories of clone/move/embed/extract/drop/drop-carrier over <=6 channels run on real threads and sim-processes under a seeded scheduler; every 'disconnected', 'empty' and blocked-at-quiescence verdict of the observers is judged against a handle-lineage model that uses only certain (invoke/return-ordered) facts. Sampling, not proof.", "5/C03"),
+         "Seeded histories of clone/move/embed/extract/drop/drop-carrier over <=6 channels run on real threads and sim-processes (which may die) under a seeded scheduler, on the OS, memfd, in-process builds and on a build with the guarded Arc scheduling hook (interleavings at reference-count operations); every 'disconnected', 'empty' and blocked-at-quiescence verdict of the observers is judged against a handle-lineage model that uses only certain (invoke/return-ordered) facts. Sampling, not proof.", "5/C03"),
  "C09": ("exploration", "deterministic simulation: seeded schedule search with receiver drop / process crash / in-transit destruction placed at every packet boundary; quiescence (hang) detection",
          "A stream of sends races with the receiver being dropped, its sim-process crashing (optionally at the k-th system call of a receive), or being destroyed/unpacked while in transit; oracle: no Ok after the receiver certainly ceased to exist, no sender blocked at quiescence, no SIGPIPE, all sends Ok and delivered for a receiver in transit. Sampling, not proof.", "5/C09"),
  "C10": ("exploration", "deterministic simulation: virtual discrete-event clock + seeded schedules; per-call timing/result oracle",
@@ -75,10 +75,10 @@ def main():
         "version": 1,
         "setup_cmd": "./run setup",
         "hooks": {
-            "guard": "none - no source hooks: the seam is link-time interposition of libc symbols inside the harness binary (/verif/harness/src/sim.rs)",
-            "enable": "n/a - checks build /verif/harness against /repo as a path dependency (cargo build --release --offline [--features memfd|inproc|asy])",
+            "guard": "cargo feature `verif-hooks` of /repo (off by default). The main seam needs no hook (link-time interposition of libc symbols inside the harness binary); the one hook adds scheduling points at Arc reference-count operations in the unix back end, for interleavings that contain no system call",
+            "enable": "cargo build --release --offline --features hook in /verif/harness (= ipc-channel/verif-hooks); only the `hook` variant of C03 is built this way, every other variant builds /repo unmodified with the feature off",
             "baseline_off_cmd": "cd /repo && (cargo nextest run --workspace --no-fail-fast --tool-config-file pb:/w/lib/nextest.toml --profile pb --test-threads 8 --offline || cargo test --workspace --no-fail-fast --offline)",
-            "source_commits": [],
+            "source_commits": ["24abaec"],
             "add_only": True,
         },
         "engines": [{"name": "ipcsim", "path": "/verif/harness", "serves_properties": sorted(CHECKS.keys()),
